@@ -1,13 +1,19 @@
 (* C11 — executable model of "what is in the log files when qFatal aborts the process".
    Definitions only: this file must keep compiling (and extracting) when a proof elsewhere breaks.
 
-   Modelled code: Logger::processMessage (logger.cpp), SimplePipeline::flush / recursiveFlush
-   (simplepipeline.cpp), Sink::process, IODeviceSink::send (one QIODevice::write per record),
-   FileSink::flush (filesink.cpp), RotatingFileSink::send (size() before the write when a size limit
-   is set; QFileDevice::size() flushes), QFileDevice's write buffer (an arbitrary flush policy in
-   the theorems, Qt 5.15's 16 KiB policy as the instance the check runs), abort() = only what has
-   been handed to the kernel survives.
-   The logger is the SYNCHRONOUS one (own thread not running), as in the property text. *)
+   Modelled code: Logger::processMessage (logger.cpp), Pipeline::process (the handler loop stops at
+   the first handler that returns false: a filter that rejects the message; a nested pipeline never
+   stops its parent), SimplePipeline::flush / recursiveFlush (simplepipeline.cpp), Sink::process,
+   IODeviceSink::send (one QIODevice::write per record), FileSink::flush (filesink.cpp),
+   RotatingFileSink::send (size() before the write when a size limit is set; QFileDevice::size()
+   flushes), QFileDevice's write buffer (an arbitrary flush policy in the theorems, Qt 5.15's 16 KiB
+   policy as the instance the check runs), a file sink on a device that accepts no data (/dev/full:
+   its flush fails), abort() = only what has been handed to the kernel survives.
+   The logger is the SYNCHRONOUS one (own thread not running), as in the property text.
+
+   What the property demands of a sink behind filters: the file holds every record that REACHED the
+   sink (passed every filter in front of it) before the fatal message, and the fatal record itself
+   iff it reaches the sink. *)
 From Coq Require Import List NArith Bool.
 Import ListNotations.
 Local Open Scope N_scope.
@@ -23,18 +29,24 @@ Definition mem_type (t : mtype) (l : list mtype) : bool := existsb (mtype_eqb t)
 
 (* one record = formatted message + newline, written by a single QIODevice::write *)
 Record rec := { rid : N; rlen : N }.
+Definition msg := (mtype * rec)%type.
+(* a (stateless) filter: accepts or rejects a message *)
+Definition flt := msg -> bool.
+Definition pass (G : list flt) (m : msg) : bool := forallb (fun f => f m) G.
 
 (* a file sink: what the kernel has (survives abort), what sits in QFile's write buffer *)
 Record sink := { sid : N;            (* identity (position in the configuration) *)
                  presize : bool;     (* RotatingFileSink with a size limit: size() before each write *)
+                 broken : bool;      (* the device takes no data (ENOSPC): every flush fails *)
                  disk : list rec;
                  buf : list rec }.
 Definition content (s : sink) : list rec := disk s ++ buf s.
 (* QFileDevice::flush *)
 Definition qflush (s : sink) : sink :=
-  {| sid := sid s; presize := presize s; disk := disk s ++ buf s; buf := [] |}.
+  if broken s then s
+  else {| sid := sid s; presize := presize s; broken := broken s; disk := disk s ++ buf s; buf := [] |}.
 Definition qappend (s : sink) (r : rec) : sink :=
-  {| sid := sid s; presize := presize s; disk := disk s; buf := buf s ++ [r] |}.
+  {| sid := sid s; presize := presize s; broken := broken s; disk := disk s; buf := buf s ++ [r] |}.
 (* the buffering policy: looking at the sink and the record, flush before appending? after? *)
 Definition policy := sink -> rec -> bool * bool.
 
@@ -48,64 +60,89 @@ Record fatal_cfg := {
   rf_flush_sinks : bool;        (* recursiveFlush calls flush() on every Sink it meets *)
   rf_descends : bool;           (* recursiveFlush recurses into nested Pipelines *)
   fs_flush_real : bool;         (* FileSink::flush() is QFile::flush() *)
-  rot_presize : bool            (* RotatingFileSink::send asks size() before FileSink::send when limited *)
+  rot_presize : bool;           (* RotatingFileSink::send asks size() before FileSink::send when limited *)
+  snk_flush_types : list mtype  (* IODeviceSink::send itself flushes after writing a message of these types *)
 }.
 (* the synchronous logger: ownThreadIsRunning() = false *)
 Definition cond_holds_sync (c : fcond) : bool :=
   match c with CAlways | CSyncOnly => true | CAsyncOnly => false end.
 
+(* Sink::flush() as dispatched to FileSink::flush *)
+Definition sink_flush (cfg : fatal_cfg) (s : sink) : sink :=
+  if fs_flush_real cfg then qflush s else s.
 (* IODeviceSink::send on a (Rotating)FileSink *)
-Definition write (cfg : fatal_cfg) (pol : policy) (s : sink) (r : rec) : sink :=
+Definition write (cfg : fatal_cfg) (pol : policy) (s : sink) (m : msg) : sink :=
+  let r := snd m in
   let s1 := if rot_presize cfg && presize s then qflush s else s in
   let (pre, post) := pol s1 r in
   let s2 := if pre then qflush s1 else s1 in
   let s3 := qappend s2 r in
-  if post then qflush s3 else s3.
-(* Sink::flush() as dispatched to FileSink::flush *)
-Definition sink_flush (cfg : fatal_cfg) (s : sink) : sink :=
-  if fs_flush_real cfg then qflush s else s.
+  let s4 := if post then qflush s3 else s3 in
+  if mem_type (fst m) (snk_flush_types cfg) then sink_flush cfg s4 else s4.
 
-(* the handler tree: file sinks, nested pipelines, anything else that lets the message pass
-   (formatters, attribute handlers, non-file sinks) *)
-Inductive tree := TSink (s : sink) | TPipe (l : list tree) | TOther.
-Fixpoint twrite (cfg : fatal_cfg) (pol : policy) (r : rec) (t : tree) : tree :=
+(* the handler tree: file sinks, nested pipelines, filters, anything else that lets the message
+   pass (formatters, attribute handlers, non-file sinks) *)
+Inductive tree := TSink (s : sink) | TPipe (l : list tree) | TFilter (f : flt) | TOther.
+(* Pipeline::process: is the loop still running after this handler? *)
+Definition lnext (m : msg) (live : bool) (t : tree) : bool :=
+  match t with TFilter f => live && f m | _ => live end.
+Fixpoint twrite (cfg : fatal_cfg) (pol : policy) (m : msg) (live : bool) (t : tree) : tree :=
   match t with
-  | TSink s => TSink (write cfg pol s r)
-  | TPipe l => TPipe (map (twrite cfg pol r) l)
-  | TOther => TOther
+  | TSink s => TSink (if live then write cfg pol s m else s)
+  | TPipe l => TPipe ((fix lw (l : list tree) (lv : bool) : list tree :=
+                         match l with
+                         | [] => []
+                         | x :: r => twrite cfg pol m lv x :: lw r (lnext m lv x)
+                         end) l live)
+  | _ => t
   end.
-(* recursiveFlush applied to one handler of the list *)
+(* recursiveFlush applied to one handler *)
 Fixpoint tflush (cfg : fatal_cfg) (t : tree) : tree :=
   match t with
   | TSink s => if rf_flush_sinks cfg then TSink (sink_flush cfg s) else t
   | TPipe l => if rf_descends cfg then TPipe (map (tflush cfg) l) else t
-  | TOther => TOther
+  | _ => t
   end.
-(* the logger itself is a pipeline: its handler list *)
-Definition lwrite cfg pol r (l : list tree) := map (twrite cfg pol r) l.
-Definition lflush cfg (l : list tree) := map (tflush cfg) l.
+(* the logger itself is a pipeline: TPipe handlers; SimplePipeline::flush() = recursiveFlush(this) *)
+Definition root_flush (cfg : fatal_cfg) (t : tree) : tree :=
+  match t with TPipe l => TPipe (map (tflush cfg) l) | _ => tflush cfg t end.
 
-(* Logger::processMessage for one message of type ty *)
+(* Logger::processMessage for one message *)
 Definition flushes (cfg : fatal_cfg) (ty : mtype) : bool :=
   mem_type ty (ff_types cfg) && cond_holds_sync (ff_cond cfg).
-Definition process_message (cfg : fatal_cfg) (pol : policy) (l : list tree) (m : mtype * rec) : list tree :=
-  let (ty, r) := m in
+Definition process_message (cfg : fatal_cfg) (pol : policy) (t : tree) (m : msg) : tree :=
   match ff_pos cfg with
-  | FNone => lwrite cfg pol r l
-  | FBefore => lwrite cfg pol r (if flushes cfg ty then lflush cfg l else l)
-  | FAfter => let l1 := lwrite cfg pol r l in if flushes cfg ty then lflush cfg l1 else l1
+  | FNone => twrite cfg pol m true t
+  | FBefore => twrite cfg pol m true (if flushes cfg (fst m) then root_flush cfg t else t)
+  | FAfter => let t1 := twrite cfg pol m true t in if flushes cfg (fst m) then root_flush cfg t1 else t1
   end.
-Definition log_all cfg pol (l : list tree) (msgs : list (mtype * rec)) : list tree :=
-  fold_left (process_message cfg pol) msgs l.
+Definition log_all cfg pol (t : tree) (msgs : list msg) : tree :=
+  fold_left (process_message cfg pol) msgs t.
 (* msgs, then qFatal(r); Qt calls abort() when the handler returns *)
-Definition run_fatal cfg pol (l : list tree) (msgs : list (mtype * rec)) (r : rec) : list tree :=
-  process_message cfg pol (log_all cfg pol l msgs) (Fatal, r).
+Definition run_fatal cfg pol (t : tree) (msgs : list msg) (r : rec) : tree :=
+  process_message cfg pol (log_all cfg pol t msgs) (Fatal, r).
 
-Fixpoint sinks (t : tree) : list sink :=
-  match t with TSink s => [s] | TPipe l => flat_map sinks l | TOther => [] end.
-Definition lsinks (l : list tree) : list sink := flat_map sinks l.
-(* abort()/SIGKILL: per file sink, what the file holds *)
-Definition survivors (l : list tree) : list (list rec) := map disk (lsinks l).
+(* ---- the file sinks of a configuration, each with the filters in front of it ---- *)
+Definition gnext (pre : list flt) (t : tree) : list flt :=
+  match t with TFilter f => pre ++ [f] | _ => pre end.
+Fixpoint gs (pre : list flt) (t : tree) : list (sink * list flt) :=
+  match t with
+  | TSink s => [(s, pre)]
+  | TPipe l => (fix go (l : list tree) (cur : list flt) : list (sink * list flt) :=
+                  match l with
+                  | [] => []
+                  | x :: r => gs cur x ++ go r (gnext cur x)
+                  end) l pre
+  | _ => []
+  end.
+Definition gsinks (t : tree) : list (sink * list flt) := gs [] t.
+(* abort()/SIGKILL: per file sink, what the file holds (None: the device keeps nothing) *)
+Definition survivors (t : tree) : list (option (list rec)) :=
+  map (fun sg => if broken (fst sg) then None else Some (disk (fst sg))) (gsinks t).
+(* THE SPECIFICATION: previous content + every record that passed the filters in front of the sink *)
+Definition expected (t : tree) (msgs : list msg) : list (option (list rec)) :=
+  map (fun sg => if broken (fst sg) then None
+                 else Some (content (fst sg) ++ map snd (filter (pass (snd sg)) msgs))) (gsinks t).
 
 Definition cfg_goodb (cfg : fatal_cfg) : bool :=
   match ff_pos cfg with FAfter => true | _ => false end
@@ -123,10 +160,23 @@ Definition qfile_policy : policy := fun s r =>
 (* ---- boolean oracle, evaluated on the record ids found in the real files ---- *)
 Fixpoint ids_eqb (a b : list N) : bool :=
   match a, b with [], [] => true | x :: a', y :: b' => (x =? y) && ids_eqb a' b' | _, _ => false end.
-(* every file holds exactly the expected records, in order, the fatal one last *)
-Definition prop_c11_b (expected : list N) (files : list (list N)) : bool :=
-  forallb (ids_eqb expected) files.
+Definition file_okb (e f : option (list N)) : bool :=
+  match e, f with
+  | None, _ => true                       (* a device that keeps nothing: no file to look at *)
+  | Some a, Some b => ids_eqb a b
+  | Some _, None => false
+  end.
+Fixpoint files_okb (e f : list (option (list N))) : bool :=
+  match e, f with
+  | [], [] => true
+  | x :: e', y :: f' => file_okb x y && files_okb e' f'
+  | _, _ => false
+  end.
+Definition ids_of (l : list (option (list rec))) : list (option (list N)) := map (option_map (map rid)) l.
+(* every file holds exactly the records that reached its sink, in order *)
+Definition prop_c11_b (t : tree) (msgs : list msg) (r : rec) (files : list (option (list N))) : bool :=
+  files_okb (ids_of (expected t (msgs ++ [(Fatal, r)]))) files.
 
-(* ---- helpers for the driver: build a configuration from a description ---- *)
-Definition fresh (id : N) (pre : bool) : sink := {| sid := id; presize := pre; disk := []; buf := [] |}.
-Definition ids_of (l : list (list rec)) : list (list N) := map (map rid) l.
+(* ---- helpers for the driver ---- *)
+Definition fresh (id : N) (pre : bool) (brk : bool) : sink :=
+  {| sid := id; presize := pre; broken := brk; disk := []; buf := [] |}.
